@@ -28,6 +28,7 @@ FUNCS = [
     dict(name='k', arity=1, ret='cref', argk=['cint']),
     dict(name='z', arity=0, ret='void', argk=[]),
     dict(name='v', arity=1, ret='void', argk=['vec']),
+    dict(name='p', arity=1, ret='pair', argk=['int']),
 ]
 
 # matcher kinds (must match sim::MK in shape.hpp)
@@ -56,7 +57,7 @@ BOUNDS = {
     'T0': (0, 0, '.TIMES(0)'),
 }
 # return kinds (sim::RK)
-RK = ['NONE', 'VAL', 'LRVAL', 'THROW_STD', 'THROW_INT', 'REF_PARAM', 'REF_CELL', 'STR', 'LRSTR', 'CREF_PARAM', 'CREF_CELL', 'CREF_CAPT', 'STR_PARAM', 'LRSTR_VAR']
+RK = ['NONE', 'VAL', 'LRVAL', 'THROW_STD', 'THROW_INT', 'REF_PARAM', 'REF_CELL', 'STR', 'LRSTR', 'CREF_PARAM', 'CREF_CELL', 'CREF_CAPT', 'STR_PARAM', 'LRSTR_VAR', 'PAIR', 'LRPAIR_VAR']
 
 
 def matcher_text(kind, argk, vi):
@@ -176,6 +177,8 @@ def gen_shape(rng, sid, fn, force=None):
         rk = rng.choice(['VAL'] * 5 + ['LRVAL'] * 2 + ['THROW_STD', 'THROW_INT'])
     elif f['ret'] == 'ref':
         rk = rng.choice(['REF_PARAM', 'REF_CELL', 'REF_CELL', 'THROW_STD'])
+    elif f['ret'] == 'pair':
+        rk = rng.choice(['PAIR', 'PAIR', 'LRPAIR_VAR', 'LRPAIR_VAR', 'THROW_STD'])
     elif f['ret'] == 'cref':
         rk = rng.choice(['CREF_PARAM', 'CREF_PARAM', 'CREF_CELL', 'CREF_CELL', 'CREF_CAPT', 'CREF_CAPT', 'THROW_STD'])
     else:
@@ -259,6 +262,8 @@ def render(d, scoped=False):
                 'LRSTR': '.LR_RETURN(sim::rets(x.id, x.snap, %s))' % addr,
                 'STR_PARAM': '.RETURN(sim::retsr(x.id, x.snap, _1, %s))' % addr,
                 'LRSTR_VAR': '.LR_RETURN(sim::retsr(x.id, x.snap, x.str, %s))' % addr,
+                'PAIR': '.RETURN(sim::retp(x.id, x.snap, %s))' % addr,
+                'LRPAIR_VAR': '.LR_RETURN(sim::retpr(x.id, x.snap, x.pr, %s))' % addr,
             }[rk]
         elif c == 'T':
             s += BOUNDS[d['bf']][2]
@@ -287,7 +292,7 @@ def main():
         any_m = ['ANY'] * f['arity']
         val_m = ['VAL'] * f['arity'] if f['argk'][:1] != ['uptr'] else any_m
         typed_m = ['TYPEDANY'] * f['arity']   # ANY(type) is a macro: the expectation text must show it as written
-        base_rk = {'int': 'VAL', 'void': 'NONE', 'ref': 'REF_CELL', 'str': 'STR', 'cref': 'CREF_CAPT'}[f['ret']]
+        base_rk = {'int': 'VAL', 'void': 'NONE', 'ref': 'REF_CELL', 'str': 'STR', 'cref': 'CREF_CAPT', 'pair': 'PAIR'}[f['ret']]
         forced = [
             dict(bf='DEFAULT', mk=any_m, nwith=0, nseq=0, nse=0, rk=base_rk),
             dict(bf='DEFAULT', mk=val_m, nwith=0, nseq=0, nse=1, rk=base_rk),
@@ -328,6 +333,9 @@ def main():
                        dict(bf='ALLOW', mk=any_m, nwith=1, wk=['NESNAP'], wlr=False, nseq=0, nse=1, rk='NONE', vform=False),
                        dict(bf='T13', mk=any_m, nwith=2, wk=['NESNAP', 'GE'], wlr=True, nseq=0, nse=0, rk='THROW_STD', vform=False),
                        dict(bf='AL1', mk=any_m, nwith=1, wk=['NESNAP'], wlr=True, nseq=1, nse=0, rk='NONE', vform=False)]
+        if f['ret'] == 'pair':
+            forced += [dict(bf='ALLOW', mk=any_m, nwith=0, nseq=0, nse=0, rk='LRPAIR_VAR', vform=False),
+                       dict(bf='T13', mk=val_m, nwith=0, nseq=0, nse=1, rk='LRPAIR_VAR', vform=False)]
         if f['ret'] == 'str':
             forced += [dict(bf='ALLOW', mk=any_m, nwith=0, nseq=0, nse=0, rk='STR_PARAM', vform=False),
                        dict(bf='ALLOW', mk=any_m, nwith=0, nseq=0, nse=0, rk='LRSTR_VAR', vform=False),
@@ -335,7 +343,7 @@ def main():
                        dict(bf='AL1', mk=any_m, nwith=1, nseq=0, nse=1, rk='LRSTR_VAR', vform=False)]
         for fo in forced:
             shapes.append(gen_shape(rng, sid, fn, fo)); sid += 1
-    counts = [60, 26, 28, 12, 12, 12, 16, 14, 14, 22]
+    counts = [60, 26, 28, 12, 12, 12, 16, 14, 14, 22, 12]
     for fn, n in enumerate(counts):
         for _ in range(n):
             shapes.append(gen_shape(rng, sid, fn)); sid += 1
